@@ -142,8 +142,8 @@ def addline_wildmatch_full : Prop := ∀ (ci : Bool) (l : List Nat), LineAgree c
 `(?:/?|.*/)a[^b]c`, whose negated class matches the path separator, so the whole path `a/c` matches; git
 compares a pattern without `/` with the entry's name `c` only (and a bracket expression never matches `/`).
 This is the recorded finding `bracket-class-admits-slash`, which cannot be repaired without breaking the
-unedited test suite.  (The two earlier witnesses, the lone `!` and the lone escaped slash, were repaired in
-/repo by 9332074 and d16e9e9; the model mirrors both repairs.) -/
+unedited test suite.  (The earlier witnesses — the lone `!`, the lone escaped slash, a trailing tab — were repaired in
+/repo by 9332074, d16e9e9 and 5031338; the model mirrors the repairs.) -/
 theorem addline_wildmatch_full_fails : ¬ addline_wildmatch_full := by
   intro h
   have := h false [97, 91, 33, 98, 93, 99] [[97], [99]] false (by decide)
@@ -172,19 +172,12 @@ theorem addline_wildmatch_prefix_dstar_fails : ¬ LineAgree false [47, 98, 42, 4
   rw [hm, hs]
   simp
 
-/-- third witness: the line `a<TAB>` and the file `a` — `add_line` uses `trim_right`, which removes every kind of
-trailing white space, so ripgrep ignores `a`; git's `trim_trailing_spaces` removes only spaces, so its pattern is
-`a<TAB>` and `a` is kept.  Recorded finding `trailing-nonspace-whitespace-trimmed`. -/
-theorem addline_wildmatch_trailing_tab_fails : ¬ LineAgree false [97, 9] := by
-  intro h
-  have := h [[97]] false (by decide)
-  revert this
-  have hm : mHit false [97, 9] (joinPath [[97]]) false = some true := by decide
-  have hs : sHit false [97, 9] [[97]] false = none := by
-    simp [sHit, GitSpec.parsePat, GitSpec.patMatches, GitSpec.trimSpaces, GitSpec.trimSpaces.go,
-      GitSpec.stripNeg, GitSpec.stripDir, GitSpec.stripLead, GitSpec.wm]
-  rw [hm, hs]
-  simp
+/-- regression example for the repaired finding F34 (5031338): the line `a<TAB>` is the pattern `a<TAB>` for
+ripgrep as for git — it does not select the file `a`, it does select the file `a<TAB>`; and the line is inside
+the proved sub-grammar now (only spaces are trimmed). -/
+example : mHit false [97, 9] (joinPath [[97]]) false = none ∧
+    mHit false [97, 9] (joinPath [[97, 9]]) false = some true ∧ okLineW false [97, 9] = true ∧
+    okLineB false [97, 9, 32, 32] = true := by decide
 
 /-- the repaired cases: a lone `!` (or `/`, or `!/`) and a lone escaped slash carry no pattern for ripgrep either -/
 example : (match addLine false [33] with | .skip => true | _ => false) = true ∧
